@@ -19,6 +19,8 @@ func main() {
 	case "exec":
 		setupLogger()
 		runExec(os.Args[2:])
+	case "wal":
+		runWal(os.Args[2:])
 	default:
 		fmt.Fprintln(os.Stderr, "unknown engine", os.Args[1])
 		os.Exit(2)
